@@ -66,33 +66,27 @@ def rule(fn, kind, expr, ordn, guards, contract):
     if fn == 'crypto.encryptSymmetricAESCBC':
         if kind == 'make':
             return '.sizeFromLen "len(plaintext)"'
-        if 'CryptBlocks' in expr:
-            return guarded(need('!(len(iv) != aes.BlockSize)'), 'ciphertext is made with len(plaintext); plaintext is a whole number of blocks: checked for the NOPAD algorithms, produced by PadPKCS7 otherwise (C03 pad_len)')
-        return guarded(need('!(len(iv) != aes.BlockSize)'), 'IV length checked')
+        return thm('C07Imported', 'Kit.C07.encryptSymmetric_never_panics', need('!(len(iv) != aes.BlockSize)'))
     if fn == 'crypto.decryptSymmetricAESCBC':
         if kind == 'make':
             return '.sizeFromLen "len(ciphertext)"'
         if 'CryptBlocks' in expr:
-            return guarded(need('!((len(ciphertext) % aes.BlockSize) != 0)', '!(len(iv) != aes.BlockSize)'), 'block alignment checked; plaintext is made with len(ciphertext)')
-        return guarded(need('!(len(iv) != aes.BlockSize)'), 'IV length checked')
+            return thm('C07Imported', 'Kit.C07.decryptSymmetric_never_panics', need('!((len(ciphertext) % aes.BlockSize) != 0)', '!(len(iv) != aes.BlockSize)'))
+        return thm('C07Imported', 'Kit.C07.decryptSymmetric_never_panics', need('!(len(iv) != aes.BlockSize)'))
     if fn == 'crypto.encryptSymmetricAEAD':
-        if kind == 'call':
-            return guarded(need('!(len(nonce) != aead.NonceSize())'), 'nonce length checked before Seal')
-        return '.delegated "crypto/cipher" "AEAD.Seal(nil, …) returns len(plaintext)+Overhead() bytes, so len(out)-tagSize >= 0 (C03 aead_split_lengths)"'
+        return thm('C07Imported', 'Kit.C07.encryptSymmetric_never_panics', need('!(len(nonce) != aead.NonceSize())'))
     if fn == 'crypto.decryptSymmetricAEAD':
         if kind == 'make':
             return '.sizeFromLen "len(ciphertext)+len(tag)"'
-        return guarded(need('!(len(nonce) != aead.NonceSize())'), 'nonce length checked before Open')
+        return thm('C07Imported', 'Kit.C07.decryptSymmetric_never_panics', need('!(len(nonce) != aead.NonceSize())'))
     if fn == 'crypto.encryptSymmetricChaCha20Poly1305':
-        if kind == 'call':
-            return guarded(need('!(err != nil)'), 'getChaCha20Poly1305Cipher returns ErrInvalidNonce unless len(nonce) is the cipher nonce size')
-        return '.delegated "x/crypto/chacha20poly1305" "Seal(nil, …) returns len(plaintext)+Overhead bytes"'
+        return thm('C07Imported', 'Kit.C07.encryptSymmetric_never_panics', need('!(err != nil)'))
     if fn == 'crypto.decryptSymmetricChaCha20Poly1305':
         if kind == 'make':
             return '.sizeFromLen "len(ciphertext)+len(tag)"'
-        return guarded(need('!(err != nil)'), 'getChaCha20Poly1305Cipher returns ErrInvalidNonce unless len(nonce) is the cipher nonce size')
+        return thm('C07Imported', 'Kit.C07.decryptSymmetric_never_panics', need('!(err != nil)'))
     if fn == 'crypto.expectedKeySize':
-        return '.callerContract "internal helper: every caller passes an algorithm name that already matched a case list of A<bits>… constants (>= 4 bytes)"'
+        return thm('C03', 'Kit.CryptoGlue.dispatch_never_out_of_range', [])
     # ---------------- crypto/pem ----------------
     if fn == 'crypto/pem.DecodePEMCertificatesChain':
         return thm('C07', 'chainLoop_never_panics', need('for i < len(certs)-1'))
@@ -100,7 +94,7 @@ def rule(fn, kind, expr, ordn, guards, contract):
     if fn == 'crypto/aeskw.Wrap':
         if kind == 'make':
             return '.sizeFromLen "n = len(cek)/8, (n+1)*8"'
-        return guarded(need('!(len(cek)%8 != 0)', '!(len(cek) < 16)'), 'r has n = len(cek)/8 >= 2 registers of 8 bytes; i ranges over 1..n; b = A|R[i] has 16 bytes; tBytes has 8 (C03 model wrap has no panic branch)')
+        return thm('C07Imported', 'Kit.C07.aeskw_wrap_never_panics', need('!(len(cek)%8 != 0)', '!(len(cek) < 16)'))
     if fn == 'crypto/aeskw.Unwrap':
         if kind == 'make':
             return guarded(need('!(len(cipherText) < 24 || len(cipherText)%8 != 0)'), 'n = len/8 - 1 >= 2')
@@ -117,13 +111,13 @@ def rule(fn, kind, expr, ordn, guards, contract):
     if fn == 'crypto/padding.PadPKCS7':
         if kind == 'make':
             return '.sizeFromLen "bufLen+padLen, padLen in 1..size"'
-        return guarded(need('!(size <= 1 || size >= 256)'), '1 < size < 256: the divisor is non-zero, 1 <= padLen <= size, out has bufLen+padLen bytes')
+        return thm('C07Imported', 'Kit.C07.pad_never_panics', need('!(size <= 1 || size >= 256)'))
     if fn == 'crypto/padding.UnpadPKCS7':
         if kind == 'div':
-            return guarded(need('!(size <= 1 || size >= 256)'), 'divisor non-zero')
+            return thm('C07Imported', 'Kit.C07.unpad_never_panics', need('!(size <= 1 || size >= 256)'))
         if expr == 'buf[l-1]':
-            return guarded(need('!(l == 0)'), 'l >= 1')
-        return guarded(need('!(padLen <= 0 || padLen > size)', '!(l%size != 0)', '!(l == 0)'), '0 < padLen <= size <= l (l is a non-zero multiple of size), so 0 <= l-padLen <= i < l')
+            return thm('C07Imported', 'Kit.C07.unpad_never_panics', need('!(l == 0)'))
+        return thm('C07Imported', 'Kit.C07.unpad_never_panics', need('!(padLen <= 0 || padLen > size)', '!(l%size != 0)', '!(l == 0)'))
     # ---------------- aescbcaead ----------------
     if fn == 'crypto/aescbcaead.NewAESCBCAEAD':
         return guarded(need('!(len(p.key) != l)'), 'len(key) = encKeySize + macKeySize')
@@ -136,10 +130,10 @@ def rule(fn, kind, expr, ordn, guards, contract):
             return '.sizeFromLen "dstLen+size"'
         if expr == 'dst[:dstLen+size]':
             return guarded(need('cap(dst) >= (dstLen + size)'), 'capacity checked')
-        return guarded(need('!(len(nonce) != aes.BlockSize)'), 'nonce is one block; out has len(padded plaintext)+tagSize bytes; the padded plaintext is a whole number of blocks')
+        return thm('C07Imported', 'Kit.C07.cbcHmacSeal_never_panics', need('!(len(nonce) != aes.BlockSize)'))
     if fn == 'crypto/aescbcaead.aesCBCAEAD.Open':
         if expr.startswith('ciphertext['):
-            return guarded(need('!(len(ciphertext) < aead.tagSize)'), 'len >= tagSize')
+            return thm('C07Imported', 'Kit.C07.cbcHmacOpen_never_panics', need('!(len(ciphertext) < aead.tagSize)'))
         if expr == 'dst[:dstLen+size]':
             return guarded(need('cap(dst) >= (dstLen + size)'), 'capacity checked')
         if kind == 'make':
@@ -147,8 +141,8 @@ def rule(fn, kind, expr, ordn, guards, contract):
         if expr == 'cipher.NewCBCDecrypter(block, nonce)':
             return '.documentedMisuse "cipher.AEAD Open: the nonce must be NonceSize() bytes long (standard-library contract, same as Seal)"'
         if 'CryptBlocks' in expr:
-            return guarded(need('!(len(ciphertext)%aes.BlockSize != 0)'), 'block alignment of the authenticated body checked (fix 5c853ad); out has len(ciphertext) bytes')
-        return guarded(need('!(len(ciphertext) < aead.tagSize)'), 'dst has dstLen+size bytes; UnpadPKCS7 returns a prefix of out')
+            return thm('C07Imported', 'Kit.C07.cbcHmacOpen_never_panics', need('!(len(ciphertext)%aes.BlockSize != 0)'))
+        return thm('C07Imported', 'Kit.C07.cbcHmacOpen_never_panics', need('!(len(ciphertext) < aead.tagSize)'))
     if fn == 'crypto/aescbcaead.aesCBCAEAD.hmacTag':
         if kind == 'call':
             return '.constIndex "al is made with 8 bytes"'
@@ -221,7 +215,8 @@ def rule(fn, kind, expr, ordn, guards, contract):
     return None
 
 def main():
-    out = []
+    """mktable.py skel.tsv [NoPanicInventory.lean]: print the entries, or rewrite the table region of the Lean file."""
+    pairs = []
     bad = 0
     for line in open(sys.argv[1]):
         key, fn, kind, expr, ordn, guards, contract = line.rstrip('\n').split('\t')
@@ -229,17 +224,32 @@ def main():
         d = rule(fn, kind, expr, int(ordn), gs, contract)
         label = '%s | %s | %s #%s' % (fn, kind, expr, ordn)
         if d is None:
-            out.append('  -- UNDISCHARGED %s  %s' % (key, label))
+            pairs.append(('  -- UNDISCHARGED %s  %s' % (key, label), None))
             bad += 1
         else:
-            out.append('  -- %s\n  (%s, %s),' % (label, key, d))
-    # strip trailing comma of the last entry
-    for i in range(len(out) - 1, -1, -1):
-        if out[i].endswith(','):
-            out[i] = out[i][:-1]
-            break
-    print('\n'.join(out))
-    print('undischarged: %d' % bad, file=sys.stderr)
+            pairs.append(('  -- ' + label, '  (%s, %s)' % (key, d)))
+    good = [p for p in pairs if p[1] is not None]
+    chunks = [good[i:i + 25] for i in range(0, len(good), 25)]
+    out = []
+    for c, e in pairs:
+        if e is None:
+            out.append(c + '\n')
+    for n, ch in enumerate(chunks):
+        out.append('def table%d : List (Nat × Discharge) := [\n' % n)
+        for j, (c, e) in enumerate(ch):
+            out.append(c + '\n' + e + (',' if j < len(ch) - 1 else '') + '\n')
+        out.append(']\n\n')
+    out.append('def table : List (Nat × Discharge) :=\n  ' + ' ++ '.join('table%d' % n for n in range(len(chunks))) + '\n\n')
+    text = ''.join(out)
+    if len(sys.argv) > 2:
+        src = open(sys.argv[2]).read()
+        a = src.index('-- BEGIN TABLE')
+        a = src.index('\n', a) + 1
+        b = src.index('-- END TABLE')
+        open(sys.argv[2], 'w').write(src[:a] + text + src[b:])
+    else:
+        print(text)
+    print('sites: %d, undischarged: %d' % (len(pairs), bad), file=sys.stderr)
 
 if __name__ == '__main__':
     main()
